@@ -977,6 +977,10 @@ func main() {
 			symNames[v.v] = v.name
 		}
 	}
+	if len(os.Args) >= 3 && os.Args[2] == "lworker" {
+		c05LedgerWorker()
+		return
+	}
 	if len(os.Args) >= 4 && (os.Args[2] == "--replay" || os.Args[2] == "replay") {
 		os.Exit(replay(os.Args[3]))
 	}
@@ -1142,5 +1146,6 @@ func main() {
 	rep.Assume("src/spice has no concurrency primitives, so the instrumented copy built by bin/check is textually the repository's code; every witness is re-executed on the un-instrumented package by a plain go test during triage")
 	rep.Assume("Drain is judged by equality with Transfer on the same operands (every product and chain case), Transfer by the oracle")
 	rep.Assume("the ledger-admission part of C05 (CreateLeaf/AddLeaf/LoadDag refusing non-canonical amounts) is not part of this run")
+	c05LedgerPart(rep)
 	os.Exit(rep.Finish())
 }
